@@ -34,6 +34,7 @@ TARGETS = {
     "pump": (["vfz.c", "t_pump.c"], ["read", "write", "splice", "shutdown"], "asan", []),
     "mt": (["vfz.c", "vk.c", "vsched.c", "t_mt.c"], WRAPS_VK + WRAPS_SCHED, "asan", []),
     "sig": (["vfz.c", "vk.c", "vsched.c", "t_sig.c"], WRAPS_VK + WRAPS_SCHED, "asan", []),
+    "ino": (["vfz.c", "vk.c", "t_ino.c"], WRAPS_VK, "asan", []),
     "wait": (["vfz.c", "vk.c", "vsched.c", "t_wait.c"], WRAPS_VK + WRAPS_SCHED + ["fork", "wait4", "kill"], "asan", []),
 }
 
